@@ -394,6 +394,7 @@ func (s *bufScanner) scanFunc(scan func() (Token, Pos, string)) (tok Token, pos 
 	// If we have unread tokens then read them off the buffer first.
 	if s.n > 0 {
 		s.n--
+		verifEv("tb", s.n, s.i, 0)
 		return s.curr()
 	}
 
@@ -401,6 +402,7 @@ func (s *bufScanner) scanFunc(scan func() (Token, Pos, string)) (tok Token, pos 
 	s.i = (s.i + 1) % len(s.buf)
 	buf := &s.buf[s.i]
 	buf.tok, buf.pos, buf.lit = scan()
+	verifEv("ts", s.n, s.i, 0)
 
 	return s.curr()
 }
@@ -451,6 +453,7 @@ func (r *reader) read() (ch rune, pos Pos) {
 	// If we have unread characters then read them off the buffer first.
 	if r.n > 0 {
 		r.n--
+		verifEv("re", r.n, r.i, 0)
 		return r.curr()
 	}
 
@@ -487,6 +490,7 @@ func (r *reader) read() (ch rune, pos Pos) {
 	if ch == eof {
 		r.eof = true
 	}
+	verifEv("rd", r.n, r.i, ch)
 
 	return r.curr()
 }
@@ -494,6 +498,7 @@ func (r *reader) read() (ch rune, pos Pos) {
 // unread pushes the previously read rune back onto the buffer.
 func (r *reader) unread() {
 	r.n++
+	verifEv("un", r.n, r.i, 0)
 }
 
 // curr returns the last read character and position.
